@@ -658,10 +658,21 @@ Proof.
     destruct (spec_entries _ ol bl) as [rl|]; [|discriminate]. inversion Hr. eauto.
 Qed.
 
-(* the crash outcome is real: an empty mapping item in a base `members` list *)
-Example update_crash_witness :
-  update true (YMap [("members", YSeq [YMap []])]) (YMap [("members", YSeq [YMap [("a", YInt 1)]])]) = None.
+(* an empty mapping item in a base `members` list is skipped by the name search (it used to raise
+   IndexError before fix: commit 44a61d5 in /repo); the overlay item is appended *)
+Example update_empty_base_item :
+  update true (YMap [("members", YSeq [YMap []])]) (YMap [("members", YSeq [YMap [("a", YInt 1)]])]) =
+  Some (YMap [("members", YSeq [YMap []; YMap [("a", YInt 1)]])]).
 Proof. reflexivity. Qed.
+
+Lemma scan_no_crash n b : scan n b <> SCrash.
+Proof.
+  induction b as [|it b IH]; cbn [scan]; [discriminate|].
+  destruct it as [| | | | | |m]; try (destruct (scan n b); [contradiction|discriminate|discriminate]).
+  destruct m as [|kv [|kv2 m]]; try (destruct (scan n b); [contradiction|discriminate|discriminate]).
+  destruct (String.eqb n (fst kv)); [discriminate|].
+  destruct (scan n b); [contradiction|discriminate|discriminate].
+Qed.
 
 (* ================================================================== non-vacuity of wf *)
 Definition ex_base : yaml :=
